@@ -65,7 +65,8 @@ Definition run_case (i : input) : obs :=
        attribute assignments that completed without raising bound every defined
        option only to None, a value of its type, or (multiple) a list all of whose
        elements are None or of its type; config strings go through parse instead;
-       assigning to an undefined option raises. *)
+       assigning to an undefined option raises;
+   (5) a timedelta text denotes the sum of its components (td_first_ok below). *)
 Definition key_of_arg (a : text) : text :=
   normalize (fst (fst (partition_at 61 (lstrip (fun c => (c =? 45)%N) a)))).
 
@@ -141,6 +142,114 @@ Fixpoint accepted_ok (defs : list optdef) (ss : list source) (outs : list obs) :
   | _, _ => true
   end.
 
+Inductive tdunit := Uh | Uhours | Um | Umin | Uminutes | Us | Usec | Useconds
+                  | Ums | Umilliseconds | Uus | Umicroseconds | Ud | Udays | Uw | Uweeks.
+Definition unit_text (u : tdunit) : text :=
+  match u with
+  | Uh => [104] | Uhours => [104;111;117;114;115]
+  | Um => [109] | Umin => [109;105;110] | Uminutes => [109;105;110;117;116;101;115]
+  | Us => [115] | Usec => [115;101;99] | Useconds => [115;101;99;111;110;100;115]
+  | Ums => [109;115] | Umilliseconds => [109;105;108;108;105;115;101;99;111;110;100;115]
+  | Uus => [117;115] | Umicroseconds => [109;105;99;114;111;115;101;99;111;110;100;115]
+  | Ud => [100] | Udays => [100;97;121;115]
+  | Uw => [119] | Uweeks => [119;101;101;107;115]
+  end%N.
+Definition unit_us (u : tdunit) : Z :=
+  match u with
+  | Uh | Uhours => 3600000000
+  | Um | Umin | Uminutes => 60000000
+  | Us | Usec | Useconds => 1000000
+  | Ums | Umilliseconds => 1000
+  | Uus | Umicroseconds => 1
+  | Ud | Udays => 86400000000
+  | Uw | Uweeks => 604800000000
+  end.
+
+
+(* ------------------------------------------------------------------ *)
+(* (5) "a timedelta text denotes the SUM of its components": an independent reference reading of
+   the simple form  <int><unit> <int><unit> ...  (single blanks, any of the 16 unit spellings, the
+   last component may omit the unit = seconds, components may be negative): tokenise on blanks,
+   look the unit up in a table, add.  None = the text is not of this form (no claim). *)
+Definition two53 : Z := 9007199254740992.
+Definition all_units : list tdunit :=
+  [Uh; Uhours; Um; Umin; Uminutes; Us; Usec; Useconds; Ums; Umilliseconds; Uus; Umicroseconds; Ud; Udays; Uw; Uweeks].
+Fixpoint assoc_unit (u : text) (l : list tdunit) : option Z :=
+  match l with
+  | [] => None
+  | x :: l' => if text_eqb u (unit_text x) then Some (unit_us x) else assoc_unit u l'
+  end.
+Definition td_token (last : bool) (tok : text) : option Z :=
+  let '(neg, b) := split_sign tok in
+  let '(ds, u) := span is_digit b in
+  match ds with
+  | [] => None
+  | _ =>
+      let n := Z.of_N (digits_val ds 0) in
+      if two53 <=? n then None
+      else match (match u with
+                  | [] => if last then Some 1000000 else None
+                  | _ => assoc_unit u all_units
+                  end) with
+           | Some f => Some ((if neg then - n else n) * f)
+           | None => None
+           end
+  end.
+Fixpoint td_sum (toks : list text) (acc : Z) : option Z :=
+  match toks with
+  | [] => Some acc
+  | t :: ts =>
+      match td_token (match ts with [] => true | _ => false end) t with
+      | Some v => if td_in_range v && td_in_range (acc + v) then td_sum ts (acc + v) else None
+      | None => None
+      end
+  end.
+Definition td_ref (t : text) : option Z :=
+  match t with [] => Some 0 | _ => td_sum (split_on 32 t) 0 end.
+
+Definition td_obs (us : Z) : obs := OList [OTag "td"; OInt us].
+Fixpoint all_some_z (l : list (option Z)) : option (list Z) :=
+  match l with
+  | [] => Some []
+  | Some a :: l' => match all_some_z l' with Some r => Some (a :: r) | None => None end
+  | None :: _ => None
+  end.
+Definition td_expected (multiple : bool) (val : text) : option obs :=
+  if multiple then
+    match all_some_z (map td_ref (split_on 44 val)) with
+    | Some l => Some (OList (map td_obs l))
+    | None => None
+    end
+  else match td_ref val with Some s => Some (td_obs s) | None => None end.
+Fixpoint val_at (k : text) (defs : list optdef) (vals : list obs) : option obs :=
+  match defs, vals with
+  | d :: defs', v :: vals' => if text_eqb (normalize (d_name d)) k then Some v else val_at k defs' vals'
+  | _, _ => None
+  end.
+(* the option [k], assigned the text [val] and never mentioned again, must show the reference sum *)
+Definition td_claim (defs : list optdef) (k val : text) (vals : list obs) : bool :=
+  match find_def k defs with
+  | Some d =>
+      if ty_eqb (eff_ty d) TTimedelta then
+        match td_expected (d_multiple d) val with
+        | Some e => match val_at k defs vals with Some v => obs_eqb v e | None => false end
+        | None => true
+        end
+      else true
+  | None => true
+  end.
+Definition td_first_ok (defs : list optdef) (srcs : list source) (vals : list obs) : bool :=
+  match srcs with
+  | SCmd (a0 :: a :: rest) :: ss =>
+      let '(name, eq, val) := partition_at 61 (lstrip (fun c => (c =? 45)%N) a) in
+      if starts_dash a && eq && negb (mentioned (normalize name) (SCmd (a0 :: rest) :: ss))
+      then td_claim defs (normalize name) val vals else true
+  | SCfg ((name, VStr val) :: bs) :: ss =>
+      if negb (mentioned (normalize name) (SCfg bs :: ss))
+      then td_claim defs (normalize name) val vals else true
+  | _ => true
+  end.
+
 Definition check_case (i : input) (o : obs) : bool :=
   let '(defs, srcs) := i in
   let keys := map (fun d => normalize (d_name d)) defs in
@@ -150,6 +259,7 @@ Definition check_case (i : input) (o : obs) : bool :=
     | OList [OList outs; OList vals] =>
         defaults_kept srcs defs vals
         && accepted_ok defs srcs outs
+        && td_first_ok defs srcs vals
         && match srcs with
            | SCmd (_ :: args) :: _ =>
                if unknown_before_end keys args
